@@ -77,6 +77,8 @@ pub struct NodeGhost {
     /// committed (entries durable, the hard state carrying the commit index not): the commit
     /// index it had known (0 = no such loss)
     pub lost_cc_commit: u64,
+    /// number of pre-campaigns this node has started (ghost round counter)
+    pub pre_round: u32,
 }
 
 #[derive(Clone)]
@@ -101,6 +103,10 @@ pub struct Ghost {
     /// terms in which some node led while a crash had taken its knowledge that a membership
     /// change in its log is committed (NodeGhost::lost_cc_commit) and it had not re-applied it
     pub leader_torn: std::collections::BTreeSet<u64>,
+    /// released pre-vote grants not yet delivered: (from, to, term, round of `to` at release)
+    pub pre_grants: Vec<(u64, u64, u64, u32)>,
+    /// terms some node campaigns for after counting a pre-vote grant of an earlier round
+    pub stale_grant_terms: std::collections::BTreeSet<u64>,
     pub max_commit_ever: u64,
     pub max_leader_commit: u64,
     /// bit i: index i was covered by a commit advance of a node acting as leader (C04)
@@ -966,17 +972,28 @@ impl World {
         for (k, id) in ids.iter().enumerate() {
             let Some(l) = self.live(*id as usize - 1) else { continue };
             let r = &l.rn.raft;
+            // circumstance of recorded finding F8: the term the majority was pushed to is one a
+            // node campaigns for after counting a pre-vote grant of an earlier pre-campaign
+            let stale = self.ghost.stale_grant_terms.iter().any(|t| *t > self.lock_term && *t <= r.term);
             if r.term != self.lock_term {
                 ctx.v(
                     "C16",
-                    "a member of the heartbeating majority changed its term",
+                    if stale {
+                        "a member of the heartbeating majority changed its term [after a pre-vote grant of an earlier pre-campaign of the same term was counted]"
+                    } else {
+                        "a member of the heartbeating majority changed its term"
+                    },
                     format!("node {} term {} -> {} after {:?}", id, self.lock_term, r.term, a),
                 );
             }
             if k == 0 && r.state != StateRole::Leader {
                 ctx.v(
                     "C16",
-                    "the heartbeating leader stepped down",
+                    if stale {
+                        "the heartbeating leader stepped down [after a pre-vote grant of an earlier pre-campaign of the same term was counted]"
+                    } else {
+                        "the heartbeating leader stepped down"
+                    },
                     format!("node {} is {:?} at term {} after {:?}", id, r.state, r.term, a),
                 );
             }
@@ -1923,6 +1940,7 @@ impl World {
             write_store(w, &node.disk);
             w.u64(node.g.max_term_told);
             w.u64(node.g.lost_cc_commit);
+            w.u64(node.g.pre_round as u64);
             w.us(node.g.votes.len());
             for (t, c) in &node.g.votes {
                 w.u64(*t);
@@ -1969,6 +1987,16 @@ impl World {
             w.u64(*l);
             w.b(g.leader_volatile.contains(t));
             w.b(g.leader_torn.contains(t));
+        }
+        w.us(g.pre_grants.len());
+        for (a, b, c, d) in &g.pre_grants {
+            w.u64(*a);
+            w.u64(*b);
+            w.u64(*c);
+            w.u64(*d as u64);
+        }
+        for t in &g.stale_grant_terms {
+            w.u64(*t);
         }
         w.u8(0xfe);
         w.u64(g.max_commit_ever);
